@@ -157,8 +157,8 @@ impl<S: Service, T: Val> RHandle for RH<S, T> {
     }
 }
 
-fn wentry<S: Service>(w: &Writer<S, u64>, k: u64, wrong: bool) -> Result<Box<dyn WHandle>, String> {
-    fn bx<S: Service, T: Val>(h: EntryHandleMut<S, u64, T>) -> Box<dyn WHandle> {
+fn wentry<S: Service + 'static>(w: &Writer<S, u64>, k: u64, wrong: bool) -> Result<Box<dyn WHandle>, String> {
+    fn bx<S: Service + 'static, T: Val>(h: EntryHandleMut<S, u64, T>) -> Box<dyn WHandle> {
         Box::new(WH::<S, T> { h: Some(h), l: None })
     }
     let e = |e| format!("{e:?}");
@@ -172,8 +172,8 @@ fn wentry<S: Service>(w: &Writer<S, u64>, k: u64, wrong: bool) -> Result<Box<dyn
     }
 }
 
-fn rentry<S: Service>(r: &Reader<S, u64>, k: u64, wrong: bool) -> Result<Box<dyn RHandle>, String> {
-    fn bx<S: Service, T: Val>(h: EntryHandle<S, u64, T>) -> Box<dyn RHandle> {
+fn rentry<S: Service + 'static>(r: &Reader<S, u64>, k: u64, wrong: bool) -> Result<Box<dyn RHandle>, String> {
+    fn bx<S: Service + 'static, T: Val>(h: EntryHandle<S, u64, T>) -> Box<dyn RHandle> {
         Box::new(RH::<S, T>(h))
     }
     let e = |e| format!("{e:?}");
@@ -187,7 +187,7 @@ fn rentry<S: Service>(r: &Reader<S, u64>, k: u64, wrong: bool) -> Result<Box<dyn
     }
 }
 
-struct World<S: Service> {
+struct World<S: Service + 'static> {
     // declaration order = drop order: handles, ports, factories, nodes
     extras: Vec<Box<dyn WHandle>>,
     whandles: BTreeMap<(u64, u64), Box<dyn WHandle>>,
@@ -199,7 +199,7 @@ struct World<S: Service> {
     nextv: BTreeMap<u64, u64>,
 }
 
-impl<S: Service> World<S> {
+impl<S: Service + 'static> World<S> {
     fn counts(&self) -> (u64, u64, u64) {
         match self.facts.get(&1) {
             Some(f) => {
@@ -231,7 +231,7 @@ fn flat<T>(r: Result<Result<T, String>, String>) -> Result<T, String> {
     }
 }
 
-pub fn run_job<S: Service>(config: &Config, name: &str, job: &Value, tw: &mut TraceWriter, summary: &mut Summary) {
+pub fn run_job<S: Service + 'static>(config: &Config, name: &str, job: &Value, tw: &mut TraceWriter, summary: &mut Summary) {
     let cfg = &job["cfg"];
     let (nkeys, rreq, nreq) = (num(cfg, "nkeys"), num(cfg, "rreq"), num(cfg, "nreq"));
     let variant = job["variant"].as_str().unwrap_or("ipc");
